@@ -171,12 +171,48 @@ def _one_octet_ints(t):
     return t
 
 
+def _len_relative_slices(t):
+    """SLICE(x;len(x) - k;) is SLICE(x;-k;), SLICE(x;a;len(x) - k) is SLICE(x;a;-k), SLICE(x;a;len(x)) is SLICE(x;a;)  (in-bounds reading)."""
+    from .interp import lin_parse
+    pos = 0
+    while True:
+        i = t.find('SLICE(', pos)
+        if i < 0:
+            return t
+        j, d = i + 6, 1
+        while j < len(t) and d:
+            d += t[j] in '([{'
+            d -= t[j] in ')]}'
+            j += 1
+        if d:
+            return t
+        parts = _split_top(t[i + 6:j - 1], ';')
+        if len(parts) == 3:
+            inner, lo, hi = parts
+            L = 'len(%s)' % inner
+            new = []
+            for which, b in (('lo', lo), ('hi', hi)):
+                if b and L in b:
+                    try:
+                        terms, c = lin_parse(b)
+                    except Exception:
+                        terms, c = None, 0
+                    if terms == {L: 1} and c < 0:
+                        b = str(c)
+                    elif terms == {L: 1} and c == 0 and which == 'hi':
+                        b = ''
+                new.append(b)
+            rep_ = 'SLICE(%s;%s;%s)' % (inner, new[0], new[1])
+            t = t[:i] + rep_ + t[j:]
+        pos = i + 6
+
+
 def norm_term(text):
     """Spelling-independent form of a rendered byte term: BYTE(<int literal>) is the constant octet, a one-octet INT / LEN is a BYTE,
     adjacent constants are one constant."""
     if text is None:
         return None
-    text = _one_octet_ints(text)
+    text = _len_relative_slices(_one_octet_ints(text))
     text = text.replace('binascii.a2b_hex(', 'binascii.unhexlify(').replace('binascii.b2a_hex(', 'binascii.hexlify(')
     t = re.sub(r'\bBYTE\((\d+)\)', lambda m: 'C(%02x)' % int(m.group(1)) if int(m.group(1)) < 256 else m.group(0), text)
     while True:
